@@ -327,3 +327,15 @@ Definition canon_build_encode_with (rs : list (res addr)) (stored : N) (m : msg)
 Definition canon_build_ctor_len (rs : list (res addr)) (m : msg) : list Z :=
   bres (fun n => [zN n]) (do _ <- all_ok rs; Ok (ctor_len m)).
 Definition canon_encode_with (stored : N) (m : msg) : list Z := bres zs (enc_frame_with stored m).
+
+(* histories: several frames decoded / messages encoded one after the other in one process.  The
+   model is a pure function of each input, so the canonical result of a history is the results of
+   its steps, each as inspected *after the whole history ran* on the implementation side: the tie
+   says a decoded message does not change afterwards and no step depends on an earlier one. *)
+Inductive hop : Set :=
+| HDec (bs : list N)
+| HEnc (rs : list (res addr)) (m : msg).
+Definition canon_hop (h : hop) : list Z :=
+  match h with HDec bs => canon_decode bs | HEnc rs m => canon_build_encode rs m end.
+Definition canon_history (hs : list hop) : list Z :=
+  flat_map (fun h => zlen (canon_hop h) :: canon_hop h) hs.
